@@ -25,9 +25,12 @@ REPO = os.environ.get("VERIF_REPO", "/repo")
 SCRATCH_ROOT = os.environ.get("VERIF_SCRATCH", "/var/tmp/lc3v")
 KANI_DIR = os.path.join(VERIF, "kani")
 VERUS_DIR = os.path.join(VERIF, "verus")
-EVID_DIR = os.path.join(VERIF, "evidence")
-REPLAY_DIR = os.path.join(VERIF, "replays")
-CACHE_DIR = os.path.join(VERIF, ".cache")
+# VERIF_OUT redirects everything a run writes (evidence, replays, cache): used when the checks are pointed at a
+# scratch worktree (VERIF_REPO) to try a seeded change without touching /repo or the committed evidence.
+OUT = os.environ.get("VERIF_OUT", VERIF)
+EVID_DIR = os.path.join(OUT, "evidence")
+REPLAY_DIR = os.path.join(OUT, "replays")
+CACHE_DIR = os.path.join(OUT, ".cache")
 MAX_RSS_GB_DEFAULT = 16
 NCPU = os.cpu_count() or 8
 
@@ -257,7 +260,7 @@ def discover_unwindset(scratch, o, tdir):
     return ",".join(sorted(set(sel)))
 
 
-def run_kani_group(scratch, gid, obls, tier_timeout):
+def run_kani_group(scratch, gid, obls, tier_timeout):  # tier_timeout: number of parallel CBMC jobs for this group (None = default)
     """One `cargo kani` invocation for obligations that share CBMC arguments. Returns {obl_id: result}."""
     cbmc_args = list(obls[0].get("cbmc_args", []))
     tdir = os.path.join(scratch.root, "target-" + gid)
@@ -272,7 +275,7 @@ def run_kani_group(scratch, gid, obls, tier_timeout):
     if os.path.exists(out_json):
         os.remove(out_json)
     timeout_s = max(o.get("timeout_s", 600) for o in obls)
-    jobs = max(1, min(len(obls), int(os.environ.get("VERIF_JOBS", "12"))))
+    jobs = tier_timeout or max(1, min(len(obls), int(os.environ.get("VERIF_JOBS", "10"))))
     cmd = ["cargo", "kani", "-Z", "stubbing", "-Z", "unstable-options", "--target-dir", tdir,
            "--output-format", "terse", "--export-json", out_json, "--harness-timeout", f"{timeout_s}s",
            "-j", str(jobs), "--exact"]
@@ -535,6 +538,8 @@ def run_property(prop, tier, seed):
         log(f"property {prop} is not claimed (see MANIFEST.not_applicable)")
         return 2
     obls = [o for o in reg["obligations"] if prop in o["properties"] and (tier == "thorough" or o.get("tier", "quick") == "quick")]
+    if os.environ.get("VERIF_ONLY"):  # developer aid: restrict to obligations whose id matches (never used by registered commands)
+        obls = [o for o in obls if re.search(os.environ["VERIF_ONLY"], o["id"])]
     canaries = [o for o in reg["obligations"] if o.get("canary")]
     engines = {o["engine"] for o in obls}
     canaries = [c for c in canaries if c["engine"] in engines]
@@ -572,10 +577,13 @@ def run_property(prop, tier, seed):
         if kani_todo and not fatal:
             groups = {}
             for o in kani_todo:
-                gid = hashlib.sha256((" ".join(o.get("cbmc_args", [])) + "|" + o.get("group", "") + "|" + (o["id"] if o.get("unwindset") else "")).encode()).hexdigest()[:8]
+                # one `cargo kani` invocation (one build of the crate) per distinct CBMC argument list
+                gid = hashlib.sha256((" ".join(o.get("cbmc_args", [])) + "|" + (o["id"] if o.get("unwindset") else "")).encode()).hexdigest()[:8]
                 groups.setdefault(gid, []).append(o)
+            total_jobs = int(os.environ.get("VERIF_JOBS", "10"))
+            n_all = sum(len(g) for g in groups.values())
             with cf.ThreadPoolExecutor(max_workers=max(1, len(groups))) as ex:
-                futs = {ex.submit(run_kani_group, scratch, gid, g, None): gid for gid, g in groups.items()}
+                futs = {ex.submit(run_kani_group, scratch, gid, g, max(1, min(len(g), (total_jobs * len(g) + n_all - 1) // n_all))): gid for gid, g in groups.items()}
                 for f in cf.as_completed(futs):
                     results.update(f.result())
         if verus_todo:
